@@ -598,7 +598,8 @@ fn determinism(a: &Args) -> i32 {
                     println!("NONDETERMINISTIC {} #{}: {:?} vs {:?} vs replay {:?}", fam.name, i, (h1, s1, st1), (h2, s2, st2), (h3, s3, st3));
                 }
             }
-            digest = mix(digest, mix(h1, s1));
+            // order-independent, so that the total is the same however the cases are split over processes
+            digest = digest.wrapping_add(mix(mix(hash_str(fam.name), i), mix(h1, s1)));
             i += wn;
         }
     }
